@@ -978,6 +978,69 @@ fn run_convert_cases(cases: &[ConvCase], threads: usize) -> Vec<ConvOutcome> {
 }
 
 // ------------------------------------------------------------------------------------------
+// end to end: bundle with the real `darklua_core::process` and see which file was inlined
+
+/// `marker <file>` (the one candidate/decoy whose text ended up in the bundle) | `markers <n>` |
+/// `error` | `panic`
+fn real_bundle(case: &Case) -> String {
+    let case = case.clone();
+    std::panic::catch_unwind(move || {
+        let resources = Resources::from_memory();
+        for f in &case.files {
+            resources.write(f, &format!("return {:?}", f)).unwrap();
+        }
+        resources.write(&case.source, &format!("return require({:?})", case.req)).unwrap();
+        let text = format!("{{ rules: [], generator: 'dense', bundle: {{ require_mode: {} }} }}", mode_json5(&case.mode));
+        let config: darklua_core::Configuration = match json5::from_str(&text) {
+            Ok(c) => c,
+            Err(e) => return format!("configuration {}", e),
+        };
+        let config = config.with_location(&case.proj);
+        let out = "bundle-output/out.lua";
+        let options = darklua_core::Options::new(&case.source).with_output(out).with_configuration(config);
+        let ok = match darklua_core::process(&resources, options) {
+            Ok(tree) => tree.result().is_ok(),
+            Err(_) => false,
+        };
+        if !ok {
+            return "error".to_owned();
+        }
+        let code = match resources.get(out) {
+            Ok(c) => c,
+            Err(_) => return "error".to_owned(),
+        };
+        let hits: Vec<&String> = case.files.iter().filter(|f| code.contains(&format!("'{}'", f)) || code.contains(&format!("\"{}\"", f))).collect();
+        if hits.len() == 1 {
+            format!("marker {}", hits[0])
+        } else {
+            format!("markers {}", hits.len())
+        }
+    })
+    .unwrap_or_else(|_| "panic".to_owned())
+}
+
+/// `alias/..`: match_path_require_call normalises the literal, which swallows the alias (F30)
+fn alias_then_parent(req: &str) -> bool {
+    let mut segs = req.split('/').filter(|x| !x.is_empty() && *x != ".");
+    match (segs.next(), segs.next()) {
+        (Some(first), Some("..")) => first != ".." && !req.starts_with('/') && !req.starts_with('.'),
+        _ => false,
+    }
+}
+
+fn run_bundle_cases(cases: &[&Case], threads: usize) -> Vec<String> {
+    let chunk = ((cases.len() + threads - 1) / threads.max(1)).max(1);
+    let mut out: Vec<String> = Vec::with_capacity(cases.len());
+    std::thread::scope(|scope| {
+        let handles: Vec<_> = cases.chunks(chunk).map(|part| scope.spawn(move || part.iter().map(|c| real_bundle(c)).collect::<Vec<_>>())).collect();
+        for h in handles {
+            out.extend(h.join().expect("worker thread"));
+        }
+    });
+    out
+}
+
+// ------------------------------------------------------------------------------------------
 // normalize
 
 fn path_strings(max_len: usize) -> Vec<String> {
@@ -1348,6 +1411,40 @@ A locator case is non-trivial when at least one candidate file exists (the loop 
             report.count("convert_mismatch_on_failing_input", 1);
         }
     }
+    // ---- E. end to end through bundling (oracle only: documented expectation vs inlined marker)
+    let mut pool: Vec<&Case> = cases[..labelled].iter().filter(|c| c.region.is_empty() && !c.req.contains(".d") && matches!(c.expect, Some(Expect::File(_)) | Some(Expect::NotFound))).collect();
+    rng.shuffle(&mut pool);
+    pool.truncate(if thorough { 40_000 } else { 6_000 });
+    let bundle_results = run_bundle_cases(&pool, threads);
+    let f30_known = known_entry(&known, "F30").is_some();
+    let f31_known = known_entry(&known, "F31").is_some();
+    for (case, got) in pool.iter().zip(bundle_results.iter()) {
+        let want = match &case.expect {
+            Some(Expect::File(loc)) => format!("marker {}", loc_string(loc)),
+            _ => s("error"),
+        };
+        report.case(Some(hash_of(&("bundle", format!("{:?}", case.mode), &case.proj, &case.files, &case.source, &case.req))));
+        let no_extension = want.starts_with("marker") && !(want.ends_with(".lua") || want.ends_with(".luau"));
+        let region = if alias_then_parent(&case.req) {
+            "F30"
+        } else if no_extension {
+            "F31"
+        } else {
+            ""
+        };
+        if &want == got {
+            report.hist("bundle", if want == "error" { "fails as documented (no candidate)" } else { "inlines the documented file" });
+            continue;
+        }
+        report.hist("bundle", if region.is_empty() { "differs" } else { region });
+        let excused = (region == "F30" && f30_known) || (region == "F31" && f31_known && (got == "panic" || got == "error"));
+        if !excused {
+            let mut input = case.to_json();
+            input["op"] = json!("bundle");
+            report.violation(Violation { kind: s("oracle"), check: format!("bundle-inlines-first-existing/{}", case.kind), what: format!("documented `{}`, bundled `{}`", want, got), input, failing_input_found: true });
+        }
+    }
+    report.count("bundle_cases", pool.len() as u64);
     report.count("convert_cases", conv_cases.len() as u64);
     report.count("locator_labelled_cases", labelled as u64);
     report.count("model_requests", model.requests);
@@ -1383,6 +1480,19 @@ fn replay_known(report: &mut Report, known: &[Value]) {
                         report.known_finding(id, &format!("{}: `{}` from `{}` gives `{}`, documented `{}`", e["site"].as_str().unwrap_or(""), case.req, case.source, real, right));
                     } else {
                         report.violation(Violation { kind: s("finding-changed"), check: format!("known-finding/{}", id), what: format!("expected `{}` (recorded defect) or `{}` (repaired), got `{}`", wrong, right, real), input: w.clone(), failing_input_found: true });
+                    }
+                }
+            }
+            Some("bundle") => {
+                if let Some(case) = Case::from_json(w) {
+                    let got = real_bundle(&case);
+                    let right = w["right_output"].as_str().unwrap_or("");
+                    let wrong = w["wrong_output"].as_str().unwrap_or("");
+                    if got == right {
+                    } else if got == wrong {
+                        report.known_finding(id, &format!("bundling `require(\"{}\")` from `{}`: `{}`, documented `{}`", case.req, case.source, got, right));
+                    } else {
+                        report.violation(Violation { kind: s("finding-changed"), check: format!("known-finding/{}", id), what: format!("expected `{}` (recorded defect) or `{}` (repaired), got `{}`", wrong, right, got), input: w.clone(), failing_input_found: true });
                     }
                 }
             }
